@@ -265,6 +265,9 @@ mod frame;
 mod packet_id;
 mod udp_frame_sink;
 
+#[cfg(uflow_verif)]
+pub mod verif;
+
 /// Server-related connection objects and parameters.
 pub mod server;
 
